@@ -19,6 +19,7 @@ import (
 	"regexp"
 	"sort"
 	"strings"
+	"sync/atomic"
 	"time"
 
 	simplefixgo "github.com/b2broker/simplefix-go"
@@ -29,6 +30,10 @@ import (
 	"vlib"
 	"vsched"
 )
+
+// messages the writer-loop stand-in took off the outgoing channel in the last run; atomic because the
+// main tasks of consecutive executions are different goroutines whose ordering the detector cannot see
+var c20Drained int64
 
 func c20Body(role string, variant string) func() {
 	return func() {
@@ -145,7 +150,7 @@ func c20Body(role string, variant string) func() {
 		time.Sleep(3 * time.Second)
 		vsched.Settle()
 		h.Stop()
-		<-drained
+		atomic.StoreInt64(&c20Drained, int64(<-drained))
 		vsched.Settle()
 	}
 }
@@ -196,6 +201,19 @@ func raceSigs(text string) (sigs []string, details map[string]string) {
 
 // firstLibFrame returns the innermost function of the library in a stack ("(harness)" if none).
 func firstLibFrame(stack string) string {
+	// an access made by the scheduling machinery itself is a defect of the harness, not of the library
+	for _, line := range strings.Split(stack, "\n") {
+		line = strings.TrimSpace(line)
+		if line == "" || strings.HasPrefix(line, "/") || strings.HasPrefix(line, "runtime.") || strings.HasPrefix(line, "sync") {
+			continue
+		}
+		if strings.HasPrefix(line, "vsched.") || strings.HasPrefix(line, "vsched/") {
+			if !strings.HasPrefix(line, "vsched/atomic.") && !strings.HasPrefix(line, "vsched/sync.") {
+				return "(harness)machinery:" + line
+			}
+		}
+		break
+	}
 	for _, line := range strings.Split(stack, "\n") {
 		line = strings.TrimSpace(line)
 		if !strings.HasPrefix(line, "github.com/b2broker/simplefix-go") || strings.Contains(line, "/vharness") {
@@ -270,12 +288,12 @@ func c20Scenario(name string, p map[string]any) *schedScenario {
 		}
 		return sigs[0], det[sigs[0]]
 	}
-	sc.Outcome = func() string { return "ran" }
+	sc.Outcome = func() string { return fmt.Sprintf("%s/%s outbound=%d", role, variant, atomic.LoadInt64(&c20Drained)) }
 	return sc
 }
 
 func runC20(R *vlib.Out) {
-	vsched.TrackStates = false
+	vsched.TrackStates = true // program points x object ids x timers; hashed inside //go:norace code
 	if raceLogPath() == "" {
 		vlib.Fatal("C20 needs the race-gate build and GORACE=log_path=...")
 	}
@@ -306,12 +324,10 @@ func runC20(R *vlib.Out) {
 			R.Cap("deadline")
 			break
 		}
-		scenarioBudget = vlib.Remaining() / time.Duration(len(ps)-i)
+		scenarioBudget = 4 * vlib.Remaining() / time.Duration(len(ps)-i) // most scenarios finish far below their share
 		sc := c20Scenario("c20", p)
 		sc.Bound = bound
 		exploreSched(R, sc)
 	}
-	R.Transitions += vsched.TotalSteps
-	R.State("race-mode: scheduler states not hashed")
-	R.State("x")
+	finishSched(R)
 }
